@@ -418,6 +418,9 @@ fn gen_nodes(rng: &mut Rng, n: usize, complex: bool) -> Vec<C64> {
         v.push(zc()); // a node exactly at the origin
     }
     let real_nodes = !complex || rng.chance(0.25);
+    // complex nodes that share a real part (vertical lines, conjugate pairs) or an imaginary part,
+    // listed next to each other: distinct abscissae, however one coordinate may coincide
+    let aligned = complex && !real_nodes && rng.chance(0.3);
     let mut guard = 0;
     while v.len() < n {
         guard += 1;
@@ -434,7 +437,15 @@ fn gen_nodes(rng: &mut Rng, n: usize, complex: bool) -> Vec<C64> {
             }
             z
         };
-        if v.iter().all(|w| (w - z).norm() >= 0.2) {
+        let z = match (aligned, v.last()) {
+            (true, Some(last)) if rng.chance(0.6) => match rng.below(3) {
+                0 => last.conj(),
+                1 => C64::new(last.re, z.im),
+                _ => C64::new(z.re, last.im),
+            },
+            _ => z,
+        };
+        if z.norm() <= 2.0 && v.iter().all(|w| (w - z).norm() >= 0.2) {
             v.push(z);
         }
     }
@@ -837,7 +848,7 @@ pub fn meta() -> CheckMeta {
             "empty input (0 nodes, equal lengths) is outside the property (1..8 nodes) and only counted".into(),
         ],
         exhaustive: false,
-        stuck_is_violation: false,
+        stuck_is_violation: true,
     }
 }
 
